@@ -670,7 +670,7 @@ Theorem iter_rows_tie ig ak po (rows : list row) (owners : list (pbval str)) (fm
     yields ys evs /\
     match r, err with
     | Val _, None => Rdec ig ak po d' st'
-    | Exn e, Some me => err_ok e me
+    | Exn e, Some me => err_ok_gen e me
     | _, _ => False
     end
   end.
@@ -713,7 +713,7 @@ Proof.
   specialize (Hloop rows owners d st [] HR Hall).
   destruct (loop owners (d, [])) as [[d' ys']|rv [d' ys']|e [d' ys']];
     destruct (decode_rows ig ak po rows st) as [[st' evs] [me|]]; try contradiction;
-    destruct Hloop as [(more & -> & Hmore) H]; (split; [exact Hmore | exact H]).
+    destruct Hloop as [(more & -> & Hmore) H]; (split; [exact Hmore | first [exact H | exists e; split; [reflexivity | exact H]]]).
 Qed.
 
 (* whatever rows a frame carries (that rdf.proto can say), the translated iter_rows over the message object with
@@ -725,7 +725,7 @@ Corollary iter_rows_on_built_frame ig ak po (rows : list row) (d : Dec) st :
     yields ys evs /\
     match r, err with
     | Val _, None => Rdec ig ak po d' st'
-    | Exn e, Some me => err_ok e me
+    | Exn e, Some me => err_ok_gen e me
     | _, _ => False
     end
   end.
@@ -826,7 +826,7 @@ Theorem source_iter_rows_is_model ig ak po (rows : list row) (owners : list (pbv
     Myields ys evs /\
     match r, err with
     | Val _, None => MRdec ig ak po d' st'
-    | Exn e, Some me => err_ok e me
+    | Exn e, Some me => err_ok_gen e me
     | _, _ => False
     end
   end.
@@ -844,7 +844,7 @@ Theorem source_iter_rows_on_built_frame ig ak po (rows : list row) (d : MDec) st
     Myields ys evs /\
     match r, err with
     | Val _, None => MRdec ig ak po d' st'
-    | Exn e, Some me => err_ok e me
+    | Exn e, Some me => err_ok_gen e me
     | _, _ => False
     end
   end.
